@@ -465,21 +465,32 @@ Realises(d, kind, v) ==
     [] OTHER -> FALSE
 
 \* ---------------------------------------------------------------------------
-\* UNMARSHALLING REPLACES.  Decoding a document (or text) A into a receiver that already
-\* holds a value B yields the value A denotes -- not a mixture of A and B.  JSON forms omit
-\* or default parts of a value (omitempty members, condensed per-height leaf groups of
-\* ApplyUpdate / RevertUpdate, short specifiers): whatever the document does not mention must
-\* be RESET by the decoder, because sync loops and stream readers decode update k+1 into the
-\* variable that held update k.
-\*   in scope      types whose decoding is core's code: a custom UnmarshalJSON or UnmarshalText
-\*                 (custom = TRUE, decided by reflection on the real types)
-\*   DOCUMENTED EXCEPTION  plain structs without a custom unmarshaller: encoding/json merges
-\*                 into an existing struct by design (absent members keep their value); that is
-\*                 not core's code.  Their lines are information only.
+\* UNMARSHALLING REPLACES.  Decoding a text or document A into a receiver that already
+\* holds a value B yields the value A denotes -- not a mixture of A and B -- wherever the
+\* text / document DETERMINES the value:
+\*   (a) every UnmarshalText, and every JSON form that is a JSON string carrying a text form
+\*       (identifiers, specifiers, unlock keys, currencies, chain indices in text form,
+\*       versions, work): a scalar text alone determines the value;
+\*   (b) JSON forms that are not a plain object-of-fields of the Go struct: values with
+\*       internal or derived state and type-tagged unions, whose UnmarshalJSON allocates or
+\*       selects a variant (VariantJSONTypes): ApplyUpdate and RevertUpdate (condensed
+\*       per-height leaf groups: what the document does not mention must be RESET, because sync
+\*       loops decode update k+1 into the variable that held update k), V2FileContractResolution,
+\*       V2FileContractElementDiff (optional revision / resolution), SpendPolicy in object form,
+\*       ElementAccumulator (trees present only where numLeaves has the bit).
+\* DOCUMENTED EXCEPTION (outside the clause): plain object documents follow Go's merge
+\* semantics -- a member absent from the object leaves the receiver's field untouched -- whether
+\* encoding/json decodes the struct itself or a custom unmarshaller decodes the object field by
+\* field (SatisfiedPolicy, StorageProof, V2StorageProof, FileContractRevision, ChainIndex as
+\* object, every struct without a custom unmarshaller).  Their lines are information only.
 \* A "used" fact:  fresh = A parses into a fresh receiver;  used = A parses into the used one;
 \* same = the used receiver marshals back to A;  eq = it equals the fresh result field by
 \* field, unexported fields included.
-Replaces(custom, fresh, used, same, eq) == (custom /\ fresh) => (used /\ same /\ eq)
+VariantJSONTypes == {"ApplyUpdate", "RevertUpdate", "V2FileContractResolution", "V2FileContractElementDiff",
+                     "SpendPolicy", "ElementAccumulator"}
+\* how: "text" (UnmarshalText) or "json";  scalar: the JSON document is a JSON string
+InReplaceClause(how, scalar, type) == how = "text" \/ scalar \/ type \in VariantJSONTypes
+Replaces(inClause, fresh, used, same, eq) == (inClause /\ fresh) => (used /\ same /\ eq)
 \* an update decoded into a used receiver must refresh proofs exactly like the original:
 \* no panic, the same proof, and it verifies
 RefreshesAlike(panicked, proof, verifies, proofOrig) == ~panicked /\ proof = proofOrig /\ verifies
